@@ -26,7 +26,8 @@ FUNCTIONS = [w.qual() for w in WRAPPERS.values()] + [
 ]
 BOUNDS = [
     "1 row per call, all real inputs under the setter preconditions, no margin around special sets",
-    "Polyline endpoints, Triangle / Tetrahedron vertices from fixed rational lists (observer, excitation symbolic)",
+    "Polyline endpoints, Triangle / Tetrahedron vertices from fixed rational lists (observer, excitation symbolic), plus committed zero-size geometries "
+    "(collinear / two-equal-vertex Triangle, flat Tetrahedron, zero-length Polyline segment, mesh with a zero-area face) run through the real kernels",
     "documented singular sets excluded: Dipole position; vertices (and, for this harness, edges) of Triangle-based sources",
     "CylinderSegment: section angles within [-720, 720] degrees; the cut segment kernel is treated as undefined exactly on the 8 corners of the section",
 ]
@@ -49,6 +50,16 @@ FIXED = {
     "trimesh": [{"mesh": [tetra_mesh(UNIT_TETRA).tolist()]}],
 }
 REAL_KERNEL = {"triangle", "tetra"}  # run without the triangle-kernel cut
+# zero-size sources the setters accept ("zero-size and zero-excitation sources" are in the property's quantifier): concrete degenerate
+# geometries, real kernels in both tiers (the degenerate vertices make most terms concrete)
+DEGENERATE = {
+    "triangle": [("collinear", {"vertices": [[(0, 0, 0), (1, 0, 0), (2, 0, 0)]]}), ("two-equal-vertices", {"vertices": [[(0, 0, 0), (1, 0, 0), (1, 0, 0)]]})],
+    # (bodies with regular faces next to the degenerate part: the real triangle kernel is decidable only for a concrete observer)
+    "tetra": [("flat", {"vertices": [[(0, 0, 0), (1, 0, 0), (0, 1, 0), (1, 1, 0)]], "observers": [(0.25, 0.5, 2)]}),
+              ("flat-in-plane", {"vertices": [[(0, 0, 0), (1, 0, 0), (0, 1, 0), (1, 1, 0)]], "observers": [(0.25, 0.5, 0)]})],
+    "polyline": [("zero-length", {"segment_start": [(1, 2, 3)], "segment_end": [(1, 2, 3)]})],
+    "trimesh": [("with-zero-area-face", {"mesh": [tetra_mesh(UNIT_TETRA).tolist()[:3] + [[(0, 0, 0), (0.5, 0.5, 0), (1, 1, 0)]]], "observers": [(0.25, 0.5, 2)]})],
+}
 
 
 def cases(tier, seed):
@@ -57,6 +68,8 @@ def cases(tier, seed):
         variants = FIXED.get(name, [None])
         for k, fx in enumerate(variants):
             out.append({"id": f"{name}-{k}", "wrapper": name, "fixed": fx, "weight": 3})
+        for tag, fx in DEGENERATE.get(name, []):
+            out.append({"id": f"{name}-degenerate-{tag}", "wrapper": name, "fixed": fx, "weight": 3, "degenerate": True})
     out.append({"id": "twin-bare-cuboid-kernel", "wrapper": "twin", "weight": 1})
     return out
 
@@ -80,6 +93,9 @@ def _singular(name, A):
         for t in tris:
             for a, b in ((0, 1), (1, 2), (2, 0)):
                 p, q = [toz(x) for x in t[a]], [toz(x) for x in t[b]]
+                if all(z3.is_true(z3.simplify(p[k] == q[k])) for k in range(3)):
+                    terms.append(z3.And(*[o[k] == p[k] for k in range(3)]))  # coinciding vertices: only the point itself
+                    continue
                 d = [q[k] - p[k] for k in range(3)]
                 w = [o[k] - p[k] for k in range(3)]
                 cr = [d[1] * w[2] - d[2] * w[1], d[2] * w[0] - d[0] * w[2], d[0] * w[1] - d[1] * w[0]]
@@ -111,33 +127,43 @@ def run_case(case, info):
     w = WRAPPERS[name]
     # quick tier: the triangle kernel is cut (its internal log/sqrt definedness obligations end `unknown` after the full timeout);
     # thorough tier runs it for real and reports what stays inconclusive
-    apply_cuts([c for c in w.cuts if not (c == "triB" and name in REAL_KERNEL and C.tier == "thorough")])
+    apply_cuts([c for c in w.cuts if not (c == "triB" and (case.get("degenerate") or (name in REAL_KERNEL and C.tier == "thorough")))])
     fn = w.fn()
     A = w.sym_args(1)
     for k, v in (case.get("fixed") or {}).items():
         A[k] = oarr(np.array(v, dtype=float))
-    CTX.pre = w.pre_all(A)
+    CTX.pre = [] if case.get("degenerate") else w.pre_all(A)  # degenerate cases: everything but observer / excitation is concrete
     if name in ("cylseg", "cylseg_internal"):
         # stated bound: section angles within +-720 degrees (the setter accepts any phi1 < phi2 <= phi1 + 360, e.g. 1.8e17 degrees, where doubles
         # cannot resolve the section any more)
         CTX.pre += [toz(A["dimension"][0, 3]) >= -720, toz(A["dimension"][0, 4]) <= 720]
-    inputs = w.inputs(A)
+    inputs = [x for x in w.inputs(A) if isinstance(x, S) and not z3.is_rational_value(x.z)]
     sing = _singular(name, A)
 
     def run():
-        return {f: fn(field=f, **{k: v.copy() for k, v in A.items()}, **w.extra_kw) for f in "BH"}
+        try:
+            return {f: fn(field=f, **{k: v.copy() for k, v in A.items()}, **w.extra_kw) for f in "BH"}
+        except Exception as e:  # noqa  (an accepted source that makes the field computation raise is a violation candidate)
+            return e
 
     def on_path(p):
         C.paths += 1
         if p.status != "ok":
             C.note_inconclusive(f"p{C.paths}", f"aborted: {p.out}")
             return
+        if isinstance(p.out, Exception):
+            def on_raise(env):
+                fargs = w.env_to_float_args(env, A)
+                return {"key": f"C15|{w.func}|raises", "replay": {"wrapper": name, "field": "B", "args": {k: v.tolist() for k, v in fargs.items()}}}
+
+            C.oblige(f"p{C.paths}.returns[{type(p.out).__name__}]", p.pc + [z3.Not(sing)], z3.BoolVal(True), on_model=on_raise, inputs=inputs, key=f"C15|{w.func}|raises")
+            return
         for f in "BH":
             out = np.asarray(p.out[f], dtype=object)
             if out.shape != (1, 3):
                 C.obligations.append({"name": f"p{C.paths}.{f}.shape", "status": "sat", "note": f"shape {out.shape}"})
                 continue
-            undefined = z3.Or(*[z3.Not(out[0, c].d) for c in range(3)])
+            undefined = z3.Or(*[z3.Not(out[0, c].d) for c in range(3) if isinstance(out[0, c], S)] or [z3.BoolVal(False)])  # plain floats are defined
 
             def on_model(env, f=f):
                 fargs = w.env_to_float_args(env, A)
@@ -183,7 +209,10 @@ def _twin(C):
 
 def replay(spec):
     w = WRAPPERS[spec["wrapper"]]
-    out = np.asarray(w.call_float(spec["field"], spec["args"]), dtype=float)
+    try:
+        out = np.asarray(w.call_float(spec["field"], spec["args"]), dtype=float)
+    except Exception as e:  # noqa
+        return True, f"{w.func}(field={spec['field']}, {spec['args']}) raised {type(e).__name__}: {str(e)[:120]}"
     bad = not np.all(np.isfinite(out))
     if not bad and spec["wrapper"] in ("cylseg", "cylseg_internal") and not spec.get("_refined"):
         # the symbolic domain of the cut kernel is "within a few ulp of a corner": look at the ulp-neighbours of the model's observer as well
